@@ -327,7 +327,8 @@ func (c11) RunCase(c *core.Ctx) {
 			case "i18n:en":
 				opts, langMap = []z.ExecOption{z.WithCtxValue("lang", "en")}, en.Map
 			case "i18n:es":
-				opts, langMap = []z.ExecOption{z.WithCtxValue("lang", "es")}, es.Map
+				// the key given twice (a helper's defaults followed by the caller's own option): the later one counts
+				opts, langMap = []z.ExecOption{z.WithCtxValue("lang", "en"), z.WithCtxValue("tenant", "t1"), z.WithCtxValue("lang", "es")}, es.Map
 			case "i18n:unknown":
 				opts, langMap = []z.ExecOption{z.WithCtxValue("lang", "fr")}, es.Map
 			default:
